@@ -58,6 +58,15 @@ CLAIMED.update({
                 design_ref="5 C11"),
 })
 
+CLAIMED.update({
+    "C10": dict(technique="TLA+ MapSem/CacheSem on abstract key names as reference (results depend on the == class only); trace validation of real MapOf/CacheOf runs over a key-type catalogue with two == representations per key, Scribble steps, default and fully colliding hashers; panics are observations no spec action matches",
+                text="model_checking: sequential programs over 22 key types (every comparable kind incl. interface-typed keys with nil and pointer-shaped dynamic values, +-0, padded and nested structs) are executed with alternating equal representations under the default hasher and under hashers forced to collide completely / in one bucket; every observation is validated by TLC against the plain-map semantics.",
+                design_ref="5 C10"),
+    "C12": dict(technique="both twins are implementations of the same TLA+ machines (CacheSem/MapSem/CacheLin); every program is run on both and validated by TLC, plus event-by-event equality of the two traces",
+                text="model_checking: random (ns and s regimes), small-scope exhaustive and layout/bulk programs are executed on Cache and CacheOf[string,any], Map and MapOf[string,any]; both traces are validated by TLC and must be equal event by event (results, ledger, Items/Range as sets, Count/Size, physical content); concurrent scenario families run on both cache twins.",
+                design_ref="5 C12"),
+})
+
 NOT_YET = "check not built yet (work in progress; see DESIGN.md section 9)"
 
 
